@@ -296,6 +296,51 @@ def stream(res, mg, tier, seed):
     vlib.log(f"[C15] parsed and compared {mg.replayed} texts in {time.time() - t0:.0f}s")
 
 
+def stretched_layouts(chk, res, seed):
+    """Layouts with ONE huge separator (a run of spaces) chosen so that the root node, and the nodes
+    that contain the separator, span 2^25-1 .. 2^26 bytes - where the packed span id changes
+    representation.  Expected spans are the specification's (first token start, last token end) for
+    this layout, exactly as for every other layout."""
+    rnd = vlib.rng(seed, "c15-stretch")
+    pool = []
+    with open(res.out_path, "r", errors="replace") as f:
+        for line in f:
+            if line.startswith(PREFIX) and len(pool) < 4000:
+                c = decode(line)
+                if (c.get("st") == "min" and c["exp"]["d"] == "accept" and 4 <= len(c["toks"]) <= 14
+                        and su.depth(c["exp"]["tree"]) >= 3):
+                    pool.append(c)
+    if len(pool) < 10:
+        raise vlib.ToolError("stretched layouts: too few printed trees to choose from")
+    targets = [2 ** 25 - 1, 2 ** 25, 2 ** 25 + 1, 2 ** 26 - 1, 2 ** 26]
+    cases, meta = [], []
+    for c in rnd.sample(pool, 12):
+        text, spans = su.layout(c["toks"], c["sep"], None)
+        for target in rnd.sample(targets, 3):
+            slot = rnd.randrange(0, len(c["toks"]) - 1)        # the separator after token `slot`
+            n = target - len(text)
+            at = spans[slot][1]
+            sp2 = [(a + (n if i > slot else 0), b + (n if i > slot else 0)) for i, (a, b) in enumerate(spans)]
+            cases.append({"k": "parse", "src": text, "full": False, "stretch": {"at": at, "byte": 32, "count": n}})
+            meta.append((c, sp2, target))
+    results = run_cases(cases, "c15_stretch", timeout_ms=60000, workers=4, mem_mb=4000)
+    agree = 0
+    for case, (c, sp2, target), r in zip(cases, meta, results):
+        chk.count(key="stretch:" + json.dumps(case, sort_keys=True), nontrivial=True)
+        want = su.canon(c["exp"]["tree"], sp2)
+        what = f"{json.dumps(case['src'])} laid out with {case['stretch']['count']} spaces at byte {case['stretch']['at']} (root node of {target} bytes)"
+        payload = dict(case, half="trees", case="stretch", expected="accept", expected_tree=want)
+        base = {"kind": "syntax", "half": "trees", "case": "stretch"}
+        if vlib.is_crash(r):
+            chk.disagree(dict(base, **{"class": "crash"}), f"parsing {what} crashed: {vlib.crash_desc(r)[:300]}", payload)
+        elif r.get("tree") != want:
+            chk.disagree(dict(base, **{"class": "wrong-tree-or-span"}),
+                         f"{what}: parser built {str(r.get('tree') or r.get('err'))[:300]}, specification: {want[:300]}", payload)
+        else:
+            agree += 1
+    chk.extra["stretched_layouts"] = {"cases": len(cases), "agree": agree}
+
+
 def validate_diagnostics(chk, mg, tier, seed):
     """Trace_Diag on a seeded sample of the recorded events; TLC and Python must agree."""
     r = vlib.rng(seed, "c15-diag")
@@ -366,6 +411,7 @@ def run(tier, seed):
     stream(res, mg, tier, seed)
     for sig, what, payload in sorted(mg.violations, key=lambda v: (json.dumps(v[0], sort_keys=True), len(v[2]["src"]), v[2]["src"])):
         chk.disagree(sig, what, payload)
+    stretched_layouts(chk, res, seed)
     validate_diagnostics(chk, mg, tier, seed)
 
     missing = su.ALL_KINDS - mg.kinds
@@ -393,7 +439,9 @@ def replay(path):
         rp = json.load(f)
     vlib.build_harness()
     case = {"k": "parse", "src": rp["case"]["src"], "full": True}
-    r = run_cases([case], "c15_replay")[0]
+    if "stretch" in rp["case"]:
+        case["stretch"] = rp["case"]["stretch"]
+    r = run_cases([case], "c15_replay", timeout_ms=60000)[0]
     out = {"src": case["src"], "expected": rp["case"].get("expected"), "expected_tree": rp["case"].get("expected_tree"),
            "reject_at_token": rp["case"].get("reject_at_token")}
     if "ast" in r:
